@@ -20,9 +20,9 @@ func (c01Engine) Name() string     { return "envsim/call-history" }
 func (c01Engine) Level() string    { return "exploration" }
 func (c01Engine) Count(tier string) int {
 	if tier == "thorough" {
-		return 160000
+		return 1500000
 	}
-	return 6000
+	return 100000
 }
 func (c01Engine) Rule() string {
 	return "Scenario i is generated from H(VERIF_SEED,'C01',i): a typed random program of the mini-expr fragment (<=40 nodes), an environment value, knobs (env as struct/pointer/map, pure vs stateful functions, optimisation on/off, Compile+Run vs Eval, fresh vs reused VM, token layout) and a fault plan over the call indices of the reference journal (quick: fault-free + 3 sampled k; thorough: every k, each with a seeded fault kind). One evaluation = one execution of the library plus one of the reference. A case is non-trivial when the reference journal of its fault-free run contains at least one external call; distinct = distinct (source text, environment, knobs, fault) signatures among those."
